@@ -58,4 +58,9 @@ BUILT = {
   level='exploration',
   text='All ordered pairs of 62 token spellings x 9 boundary forms (25 k cases) are enumerated exhaustively; in addition generated valid programs are re-spaced densely and macro-ised (token runs, identity wrappers, empty macros, no white space where the source stays unambiguous) and must compile to the same assembly from their -E output, which must be a fixpoint of -E.',
   note='the finite adjacency sub-space is covered completely for the chosen alphabet; programs are sampled; gcc/clang -E -P token sequences are the reference for the table'),
+ 'C06': dict(
+  technique='property-based differential testing across the ABI boundary: Hypothesis-generated signatures, each linked four ways (chibicc/gcc as caller and callee) against a (gcc,gcc) reference confirmed by (clang,gcc); leaf-wise parameter/return logs, stack-alignment probe, assembly trampoline checking callee-saved registers',
+  level='exploration',
+  text='Signatures with register-exhausting fillers, scalars of all classes, by-value struct/union parameters and returns of every eightbyte class mix (incl. bit-fields, nested, arrays), long double, variadic walks (incl. named aggregates and stack-passed named parameters), calls as arguments and under pending temporaries; every link-up must log exactly what the all-gcc build logs, with rsp 16-aligned at the call and rbx/rbp/r12-r15 preserved.',
+  note='trusts gcc/clang psABI conformance; D17, D18, D73 recorded and excluded by construction (counted)'),
 }
